@@ -1044,3 +1044,238 @@ Proof.
     destruct (leave_call (set_incall h1 k sid false) sid) as [h2 o2] eqn:H2. cbn [fst]. peel.
     rewrite (fst_eq _ _ _ H2). eapply rel_trans; [exact R1|]. eapply rel_trans; [apply rel_set_incall|apply rel_leave_call].
 Qed.
+
+(* ------------------------------------------------------------------ creating objects *)
+(* a token that is neither pending nor in any session's tables *)
+Definition Fresh (h : hub) (tok : N) : Prop :=
+  tok <= h_mcutok h /\ ~ In tok (pend_keys h) /\ forall sid s, get_sess h sid = Some s -> ~ In tok (toks s).
+
+Lemma NoDup_app_single {A} (l : list A) x : NoDup l -> ~ In x l -> NoDup (l ++ [x]).
+Proof.
+  induction l as [|y l IH]; cbn; intros H Hx; [constructor; [tauto|constructor]|].
+  inversion H as [|? ? Hy Hl]; subst. constructor.
+  - intros Hin. apply in_app_or in Hin as [Hin|[<-|[]]]; [contradiction|]. apply Hx. now left.
+  - apply IH; [assumption|]. intros Hin. apply Hx. now right.
+Qed.
+Lemma NoDup_insert_mid {A} (a b : list A) x : NoDup (a ++ b) -> ~ In x (a ++ b) -> NoDup ((a ++ [x]) ++ b).
+Proof.
+  induction a as [|y a IH]; cbn; intros H Hx; [now constructor|].
+  inversion H as [|? ? Hy Hl]; subst. constructor.
+  - intros Hin. apply in_app_or in Hin as [Hin|Hin].
+    + apply in_app_or in Hin as [Hin|[<-|[]]]; [apply Hy, in_or_app; now left|]. apply Hx. now left.
+    + apply Hy, in_or_app. now right.
+  - apply IH; [assumption|]. intros Hin. apply Hx. now right.
+Qed.
+
+(* changing the token counter and the pending table only *)
+Lemma inv_set_mcu h t pend :
+  Inv h -> h_mcutok h <= t ->
+  (forall k, In k (map fst pend) -> In k (pend_keys h) \/ (h_mcutok h < k /\ k <= t)) ->
+  Inv (set_mcu h t pend (h_mcuopen h)).
+Proof.
+  intros I Ht Hp. constructor; try apply I.
+  2:{ pose proof (i_uniq _ I) as U. constructor; [apply (u_keys _ U)|apply (u_skeys _ U)|apply (u_slot _ U)|apply (u_sess _ U)]. }
+  constructor.
+  - intros sid s tok Hs Hin. destruct (ti_held _ (i_tok _ I) sid s tok Hs Hin) as [H1 H2]. msimpl. split; [lia|].
+    intros Hk. destruct (Hp tok Hk) as [Hk'|[Hk' _]]; [contradiction|lia].
+  - intros tok Hk. msimpl. destruct (Hp tok Hk) as [Hk'|[_ Hk']]; [|assumption].
+    pose proof (ti_pend _ (i_tok _ I) tok Hk'). lia.
+Qed.
+
+(* a session takes a fresh token into its tables and the token becomes open *)
+Lemma inv_add h sid s s1 tok :
+  Inv h -> Fresh h tok -> get_sess h sid = Some s ->
+  (forall t, In t (toks s1) <-> t = tok \/ In t (toks s)) ->
+  NoDup (toks s1) -> NoDup (map fst (s_pubs s1)) -> NoDup (map fst (s_subs s1)) ->
+  (is_virtual (s_kind s1) = false -> sess_hold s1) ->
+  Inv (set_mcu (put_sess h sid s1) (h_mcutok h) (h_mcupending h) (h_mcuopen h ++ [tok])).
+Proof.
+  intros I (Fle & Fpend & Fheld) Hs Ht Hnd Hk1 Hk2 Hho.
+  match goal with |- Inv ?X => set (F := X) end.
+  assert (Hget : forall x, get_sess F x = if N.eqb x sid then Some s1 else get_sess h x) by (intros x; apply get_put).
+  assert (Hopen : h_mcuopen F = h_mcuopen h ++ [tok]) by reflexivity.
+  assert (Hnotopen : ~ In tok (h_mcuopen h)).
+  { intros Hin. destruct (i_own _ I tok Hin) as (x & sx & Hx & Hin'). eapply Fheld; eauto. }
+  constructor.
+  - intros t. rewrite Hopen. intros Hin. apply in_app_or in Hin as [Hin|[<-|[]]].
+    + destruct (i_own _ I t Hin) as (x & sx & Hx & Hin'). exists x. rewrite Hget. destruct (N.eqb_spec x sid) as [->|].
+      * exists s1. split; [reflexivity|]. apply Ht. right. congruence.
+      * eauto.
+    + exists sid, s1. rewrite Hget, N.eqb_refl. split; [reflexivity|]. apply Ht. now left.
+  - intros x sx t. rewrite Hget, Hopen. destruct (N.eqb_spec x sid) as [->|]; intros Hx Hin; apply in_or_app.
+    + injection Hx as <-. apply Ht in Hin as [->|Hin]; [right; now left|left]. eapply (i_held _ I); eauto.
+    + left. eapply (i_held _ I); eauto.
+  - rewrite Hopen. apply NoDup_app_single; [apply I|assumption].
+  - constructor.
+    + intros x sx t. rewrite Hget. destruct (N.eqb_spec x sid) as [->|]; intros Hx Hin.
+      * injection Hx as <-. apply Ht in Hin as [->|Hin]; [split; assumption|]. eapply (ti_held _ (i_tok _ I)); eauto.
+      * eapply (ti_held _ (i_tok _ I)); eauto.
+    + apply (ti_pend _ (i_tok _ I)).
+  - pose proof (i_uniq _ I) as U. constructor.
+    + intros x sx. rewrite Hget. destruct (N.eqb_spec x sid) as [->|]; intros Hx; [injection Hx as <-; assumption|eapply u_keys; eauto].
+    + intros x sx. rewrite Hget. destruct (N.eqb_spec x sid) as [->|]; intros Hx; [injection Hx as <-; assumption|eapply u_skeys; eauto].
+    + intros x sx. rewrite Hget. destruct (N.eqb_spec x sid) as [->|]; intros Hx; [injection Hx as <-; assumption|eapply (u_slot _ U); eauto].
+    + intros x1 x2 sx1 sx2 t. rewrite !Hget.
+      destruct (N.eqb_spec x1 sid) as [->|N1]; destruct (N.eqb_spec x2 sid) as [->|N2]; intros H1 H2 I1 I2; try reflexivity.
+      * injection H1 as <-. apply Ht in I1 as [->|I1]; [exfalso; eapply Fheld; eauto|]. eapply (u_sess _ U); eauto.
+      * injection H2 as <-. apply Ht in I2 as [->|I2]; [exfalso; eapply Fheld; eauto|]. eapply (u_sess _ U); eauto.
+      * eapply (u_sess _ U); eauto.
+  - intros x sx. rewrite Hget. destruct (N.eqb_spec x sid) as [->|]; intros Hx; [injection Hx as <-; assumption|].
+    eapply (i_hold _ I); eauto.
+Qed.
+
+Lemma media_of_aset pm tok m t : media_of (aset pm tok m) t = if N.eqb t tok then m else media_of pm t.
+Proof. unfold media_of. rewrite aget_aset. destruct (N.eqb t tok); reflexivity. Qed.
+
+Lemma inv_add_pub h sid s stream tok media :
+  Inv h -> Fresh h tok -> get_sess h sid = Some s -> aget (s_pubs s) stream = None ->
+  offer_allowed (s_perms s) stream media = true ->
+  Inv (set_mcu (put_sess h sid (sess_media s (s_incall s) (s_flags s) (aset (s_pubs s) stream tok) (s_subs s) (aset (s_pubmedia s) tok media)))
+               (h_mcutok h) (h_mcupending h) (h_mcuopen h ++ [tok])).
+Proof.
+  intros I F Hs Hn Hoff. pose proof F as (_ & _ & Fheld).
+  pose proof (i_uniq _ I) as U.
+  apply inv_add with s; auto; cbn [s_pubs s_subs s_pubmedia s_perms s_kind sess_media]; rewrite ?(aset_new _ _ _ Hn).
+  - intros t. unfold toks. cbn [s_pubs s_subs sess_media]. rewrite ?(aset_new _ _ _ Hn), map_app. cbn [map snd].
+    rewrite !in_app_iff. cbn [In]. split; [intros [[H|[H|[]]]|H]|intros [H|[H|H]]]; auto.
+  - unfold toks. cbn [s_pubs s_subs sess_media]. rewrite ?(aset_new _ _ _ Hn), map_app. cbn [map snd].
+    apply NoDup_insert_mid; [apply (u_slot _ U sid s Hs)|apply (Fheld sid s Hs)].
+  - rewrite map_app. cbn [map fst]. apply NoDup_app_single; [eapply u_keys; eauto|now apply aget_none_keys].
+  - eapply u_skeys; eauto.
+  - intros Hv st t Hin. cbn [s_pubs s_pubmedia s_perms sess_media] in *. rewrite ?(aset_new _ _ _ Hn) in Hin.
+    rewrite media_of_aset. apply in_app_or in Hin as [Hin|[Hin|[]]].
+    + destruct (N.eqb_spec t tok) as [->|].
+      * exfalso. apply (Fheld sid s Hs). unfold toks. apply in_or_app. left. apply in_map_iff. exists (st, tok). auto.
+      * apply (i_hold _ I sid s Hs Hv st t Hin).
+    + injection Hin as <- <-. rewrite N.eqb_refl. exact Hoff.
+Qed.
+
+Lemma inv_add_sub h sid s key tok :
+  Inv h -> Fresh h tok -> get_sess h sid = Some s -> pget (s_subs s) key = None ->
+  Inv (set_mcu (put_sess h sid (sess_media s (s_incall s) (s_flags s) (s_pubs s) (pset (s_subs s) key tok) (s_pubmedia s)))
+               (h_mcutok h) (h_mcupending h) (h_mcuopen h ++ [tok])).
+Proof.
+  intros I F Hs Hn. pose proof F as (_ & _ & Fheld).
+  pose proof (i_uniq _ I) as U.
+  apply inv_add with s; auto; cbn [s_pubs s_subs s_pubmedia s_perms s_kind sess_media]; rewrite ?(pset_new _ _ _ Hn).
+  - intros t. unfold toks. cbn [s_pubs s_subs sess_media]. rewrite ?(pset_new _ _ _ Hn), map_app. cbn [map snd].
+    rewrite !in_app_iff. cbn [In]. split; [intros [H|[H|[H|[]]]]|intros [H|[H|H]]]; auto.
+  - unfold toks. cbn [s_pubs s_subs sess_media]. rewrite ?(pset_new _ _ _ Hn), map_app. cbn [map snd].
+    rewrite app_assoc. apply NoDup_app_single; [apply (u_slot _ U sid s Hs)|apply (Fheld sid s Hs)].
+  - eapply u_keys; eauto.
+  - rewrite map_app. cbn [map fst]. apply NoDup_app_single; [eapply u_skeys; eauto|now apply pget_none_keys].
+  - intros Hv. apply (i_hold _ I sid s Hs Hv).
+Qed.
+
+Lemma inv_send_session h x m : Inv h -> Inv (fst (send_session h x m)).
+Proof. intros I. apply (inv_rel h); [apply rel_send_session|exact I]. Qed.
+
+Lemma inv_finish_create h tok p ok : Inv h -> Fresh h tok -> Inv (fst (finish_create h tok p ok)).
+Proof.
+  intros I F. unfold finish_create.
+  assert (Hcond : forall hh (b : bool) x m, Inv hh -> Inv (fst (if b then send_session hh x m else (hh, [])))).
+  { intros hh b x m Ih. destruct b; [now apply inv_send_session|exact Ih]. }
+  destruct ok; cbn [negb].
+  2:{ destruct (send_session h (mp_errto p) (SError E_client_not_found)) as [h1 o1] eqn:H1. cbn [fst].
+      rewrite (fst_eq _ _ _ H1). now apply inv_send_session. }
+  destruct (get_sess h (mp_owner p)) as [s|] eqn:Hs; [|exact I].
+  destruct (negb (N.eqb (s_rel s) (mp_rel p))).
+  { destruct (send_session h (mp_errto p) (SError E_client_not_found)) as [h1 o1] eqn:H1. cbn [fst].
+    rewrite (fst_eq _ _ _ H1). now apply inv_send_session. }
+  destruct (N.eqb (mp_kind p) 0 && negb (offer_allowed (s_perms s) (mp_stream p) (N.land (mp_media p) 3))) eqn:Hchk.
+  { destruct (send_session h (mp_errto p) (SError E_not_allowed)) as [h1 o1] eqn:H1. cbn [fst].
+    rewrite (fst_eq _ _ _ H1). now apply inv_send_session. }
+  destruct (N.eqb (mp_kind p) 0) eqn:Hkind.
+  - destruct (aget (s_pubs s) (mp_stream p)) eqn:Hslot.
+    + match goal with |- context [let '(h1, o1) := ?X in _] => destruct X as [h1 o1] eqn:H1 end. cbn [fst].
+      rewrite (fst_eq _ _ _ H1). now apply Hcond.
+    + match goal with |- context [let '(h3, o3) := ?X in _] => destruct X as [h3 o3] eqn:H3 end. cbn [fst].
+      rewrite (fst_eq _ _ _ H3). apply Hcond.
+      cbn [andb] in Hchk. apply negb_false_iff in Hchk. rewrite offer_allowed_land in Hchk.
+      exact (inv_add_pub h (mp_owner p) s (mp_stream p) tok (mp_media p) I F Hs Hslot Hchk).
+  - destruct (sub_get s (mp_pubof p) (mp_stream p)) eqn:Hslot.
+    + match goal with |- context [let '(h1, o1) := ?X in _] => destruct X as [h1 o1] eqn:H1 end. cbn [fst].
+      rewrite (fst_eq _ _ _ H1). now apply Hcond.
+    + match goal with |- context [let '(h3, o3) := ?X in _] => destruct X as [h3 o3] eqn:H3 end. cbn [fst].
+      rewrite (fst_eq _ _ _ H3). apply Hcond.
+      exact (inv_add_sub h (mp_owner p) s (mp_pubof p, mp_stream p) tok I F Hs Hslot).
+Qed.
+
+Lemma inv_start_create h p : Inv h -> Inv (fst (start_create h p)).
+Proof.
+  intros I. unfold start_create. pose proof (i_tok _ I) as T.
+  destruct (h_gated h).
+  - cbn [fst]. apply inv_set_mcu; [exact I|lia|].
+    intros k. rewrite map_app. cbn [map fst]. intros Hin. apply in_app_or in Hin as [Hin|[<-|[]]]; [now left|right; lia].
+  - match goal with |- context [let '(h1, o1) := ?X in _] => destruct X as [h1 o1] eqn:H1 end. cbn [fst].
+    rewrite (fst_eq _ _ _ H1). apply inv_finish_create.
+    + apply inv_set_mcu; [exact I|lia|]. intros k Hk. now left.
+    + split; [msimpl; lia|]. split.
+      * intros Hin. pose proof (ti_pend _ T _ Hin). lia.
+      * intros sid s Hs Hin. destruct (ti_held _ T sid s _ Hs Hin). lia.
+Qed.
+
+Lemma inv_do_mcudone h tok ok : Inv h -> Inv (fst (do_mcudone h tok ok)).
+Proof.
+  intros I. unfold do_mcudone. pose proof (i_tok _ I) as T.
+  destruct (aget (h_mcupending h) tok) as [p|] eqn:Hp; [|exact I].
+  apply aget_some_keys in Hp. apply inv_finish_create.
+  - apply inv_set_mcu; [exact I|lia|]. intros k Hk. left. now apply in_keys_adel in Hk as [Hk _].
+  - split; [apply (ti_pend _ T _ Hp)|]. split.
+    + intros Hin. apply in_keys_adel in Hin as [_ Hne]. now apply Hne.
+    + intros sid s Hs Hin. destruct (ti_held _ T sid s _ Hs Hin) as [_ Hn]. now apply Hn.
+Qed.
+
+(* a session record changes without its tables changing *)
+Lemma inv_put_same h sid s s1 :
+  Inv h -> get_sess h sid = Some s -> s_pubs s1 = s_pubs s -> s_subs s1 = s_subs s ->
+  (is_virtual (s_kind s1) = false -> sess_hold s1) -> Inv (put_sess h sid s1).
+Proof.
+  intros I Hs Hp Hsu Hho.
+  assert (Ht : toks s1 = toks s) by (unfold toks; now rewrite Hp, Hsu).
+  assert (Hget : forall x, get_sess (put_sess h sid s1) x = if N.eqb x sid then Some s1 else get_sess h x) by apply get_put.
+  assert (Hback : forall x sx, get_sess (put_sess h sid s1) x = Some sx -> exists s0, get_sess h x = Some s0 /\ toks sx = toks s0 /\ s_pubs sx = s_pubs s0 /\ s_subs sx = s_subs s0).
+  { intros x sx. rewrite Hget. destruct (N.eqb_spec x sid) as [->|]; intros H; [injection H as <-|]; eauto 6. }
+  pose proof (i_uniq _ I) as U. constructor.
+  - intros t Hin. destruct (i_own _ I t Hin) as (x & sx & Hx & Hin'). exists x. rewrite Hget.
+    destruct (N.eqb_spec x sid) as [->|]; [|eauto]. exists s1. split; [reflexivity|]. rewrite Ht. congruence.
+  - intros x sx t Hx Hin. destruct (Hback x sx Hx) as (s0 & H0 & E & _). rewrite E in Hin. eapply (i_held _ I); eauto.
+  - apply I.
+  - constructor; [|apply (ti_pend _ (i_tok _ I))].
+    intros x sx t Hx Hin. destruct (Hback x sx Hx) as (s0 & H0 & E & _). rewrite E in Hin. eapply (ti_held _ (i_tok _ I)); eauto.
+  - constructor.
+    + intros x sx Hx. destruct (Hback x sx Hx) as (s0 & H0 & _ & E & _). rewrite E. eapply u_keys; eauto.
+    + intros x sx Hx. destruct (Hback x sx Hx) as (s0 & H0 & _ & _ & E). rewrite E. eapply u_skeys; eauto.
+    + intros x sx Hx. destruct (Hback x sx Hx) as (s0 & H0 & E & _). rewrite E. eapply (u_slot _ U); eauto.
+    + intros x1 x2 sx1 sx2 t H1 H2 I1 I2. destruct (Hback x1 sx1 H1) as (s01 & H01 & E1 & _). destruct (Hback x2 sx2 H2) as (s02 & H02 & E2 & _).
+      rewrite E1 in I1. rewrite E2 in I2. eapply (u_sess _ U); eauto.
+  - intros x sx. rewrite Hget. destruct (N.eqb_spec x sid) as [->|]; intros Hx; [injection Hx as <-; assumption|].
+    eapply (i_hold _ I); eauto.
+Qed.
+
+Lemma offer_allowed_4 p st : st <> 2 -> offer_allowed p st 4 = true.
+Proof. intros H. unfold offer_allowed. destruct (N.eqb_spec st 2); [contradiction|reflexivity]. Qed.
+
+Lemma inv_do_media h c sid s to mk stream media :
+  Inv h -> get_sess h sid = Some s -> Inv (fst (do_media h c sid s to mk stream media)).
+Proof.
+  intros I Hs. unfold do_media. destruct to as [i|u| |]; try exact I.
+  destruct (N.eqb mk 0).
+  - destruct (negb (offer_allowed (s_perms s) stream media)) eqn:Hoff; [exact I|]. apply negb_false_iff in Hoff.
+    destruct (aget (s_pubs s) stream) as [tok|] eqn:Hslot; [|now apply inv_start_create].
+    apply inv_send_session. apply inv_put_same with s; auto.
+    intros Hv st t Hin. cbn [s_pubs s_pubmedia s_perms s_kind sess_media] in *. rewrite media_of_aset.
+    destruct (N.eqb_spec t tok) as [->|]; [|apply (i_hold _ I sid s Hs Hv st t Hin)].
+    destruct (N.eqb_spec st 2) as [->|Hst].
+    + rewrite (offer_allowed_screen _ _ (media_of (s_pubmedia s) tok)). apply (i_hold _ I sid s Hs Hv 2 tok Hin).
+    + destruct (N.eqb_spec stream 2) as [->|Hstream]; [now apply offer_allowed_4|].
+      rewrite offer_allowed_land, (offer_allowed_stream _ st stream) by assumption. exact Hoff.
+  - destruct (N.eqb mk 1).
+    + match goal with |- context [if ?c then _ else _] => destruct c end; [exact I|].
+      destruct (negb (same_call h sid s _)); [exact I|].
+      destruct (sub_get s _ stream); [now apply inv_send_session|now apply inv_start_create].
+    + destruct (N.eqb mk 2); [|exact I].
+      match goal with |- context [if ?c then _ else _] => destruct c end.
+      * destruct (negb (send_allowed (s_perms s) stream)); [exact I|]. destruct (aget (s_pubs s) stream); exact I.
+      * destruct (sub_get s _ stream); exact I.
+Qed.
